@@ -644,7 +644,7 @@ def oracle_estab(case: dict, res: dict) -> str | None:
 def run_estab(case: dict) -> dict:
     from harness import timerrig
 
-    return timerrig.run_establishment(case['local'], case['peer'], case['arrivals'], case['kind'], case['routes'], estab_until(case))
+    return timerrig.run_establishment(case['local'], case['peer'], case['arrivals'], case['kind'], case['routes'], estab_until(case), api_events=case.get('api'), cfg_extra=case.get('cfg'))
 
 
 def estab_cases(rng, tier: str) -> list[dict]:
@@ -661,7 +661,16 @@ def estab_cases(rng, tier: str) -> list[dict]:
                 cases.append({'local': local, 'peer': peer, 'arrivals': [max(a, 1) for a in arr], 'kind': rng.choice(['keepalive', 'update']), 'routes': 3 * ((flip + 1) % 2)})
             else:
                 cases.append({'local': local, 'peer': peer, 'arrivals': [5000], 'kind': 'update', 'routes': 3 * ((flip + 1) % 2)})
+    # what the API process asks for meanwhile (a route-refresh request, new routes), with and without the
+    # route-refresh capability: outbound work, sent or not, never stands in for the KEEPALIVE schedule
+    for h, refresh, api in [(3, False, [(1500, ['queueRefresh'])]), (3, True, [(1500, ['queueRefresh'])]), (9, False, [(500, ['queueRefresh']), (4000, ['announce', 2])]),
+                            (9, True, [(100, ['announce', 3]), (3100, ['announce', 1]), (6100, ['queueRefresh'])]), (90, False, [(1000, ['queueRefresh'])])]:  # fmt: skip
+        cases.append({'local': h, 'peer': 180, 'arrivals': [h * 1000 // 3 * i for i in range(1, 7)], 'kind': 'keepalive', 'routes': 1, 'api': api, 'cfg': {'refresh': refresh}})
     if tier != 'quick':
+        for _ in range(60):
+            h = rng.choice([3, 4, 9, 30])
+            api = sorted((rng.randrange(0, 3 * h * 1000), rng.choice([['queueRefresh'], ['announce', 1], ['announce', 5]])) for _ in range(rng.randrange(1, 5)))
+            cases.append({'local': h, 'peer': rng.choice([h, 180]), 'arrivals': [h * 1000 // 3 * i for i in range(1, 10)], 'kind': 'keepalive', 'routes': rng.choice([0, 2]), 'api': [list(x) for x in api], 'cfg': {'refresh': rng.random() < 0.5}})
         for _ in range(250):
             local, peer = (rng.choice(HOLDS + [4, 5, 10, 30, rng.randrange(3, 200)]) for _ in range(2))
             h = min(local, peer)
@@ -708,6 +717,8 @@ def check_estab(ctx: Ctx, case: dict, origin: str, seen_fail: set) -> None:
                 small = cand
                 break
         canon = {'local': small['local'], 'peer': small['peer'], 'routes': small['routes'], 'kind': small['kind'] if small['arrivals'] else '-', 'arrivals': small['arrivals']}
+        if small.get('api'):
+            canon.update(api=small['api'], cfg=small.get('cfg'))
         key = json.dumps(canon)
         if key not in seen_fail:
             seen_fail.add(key)
